@@ -1,4 +1,4 @@
-import DmlcModel.Parse.ConvSimple
+import DmlcModel.Parse.ConvStrToNum
 import Driver.Proto
 /-! line-protocol driver of the Parse model (C11, C12); ops documented in harness/h_parsers.cc -/
 namespace Driver.Parse
@@ -41,11 +41,11 @@ def parseFmt (s : String) : Option (Format × Conv) :=
   | ["svm", iw, mode] => do
     let iw ← iw.toNat?
     let mode ← mode.toNat?
-    pure (.libsvm iw mode, ConvSimple.conv iw .f32)
+    pure (.libsvm iw mode, ConvStrToNum.conv iw .f32)
   | ["fm", iw, mode] => do
     let iw ← iw.toNat?
     let mode ← mode.toNat?
-    pure (.libfm iw mode, ConvSimple.conv iw .f32)
+    pure (.libfm iw mode, ConvStrToNum.conv iw .f32)
   | ["csv", iw, dt, lc, wc, d] => do
     let iw ← iw.toNat?
     let dt ← match dt with
@@ -53,7 +53,7 @@ def parseFmt (s : String) : Option (Format × Conv) :=
     let lc ← parseInt32 lc
     let wc ← parseInt32 wc
     let d ← d.toNat?
-    pure (.csv { labelCol := lc, weightCol := wc, delim := d, isReal := dt == .f32 }, ConvSimple.conv iw dt)
+    pure (.csv { labelCol := lc, weightCol := wc, delim := d, isReal := dt == .f32 }, ConvStrToNum.conv iw dt)
   | _ => none
 
 def fx : Fixes := Fixes.current
